@@ -12,8 +12,8 @@ trap 'git -C /repo worktree remove --force "$S/repo" >/dev/null 2>&1 || true; rm
 git -C /repo worktree add -q --detach "$S/repo" HEAD
 git -C "$S/repo" apply "$PATCH"
 mkdir -p "$S/harness"
-cp -a "$ROOT/harness/Cargo.toml" "$ROOT/harness/Cargo.lock" "$ROOT/harness/.cargo" "$ROOT/harness/vh" "$S/harness/"
-sed -i "s#path = \"/repo#path = \"$S/repo#g" "$S/harness/vh/Cargo.toml"
+cp -a "$ROOT/harness/Cargo.toml" "$ROOT/harness/Cargo.lock" "$ROOT/harness/.cargo" "$ROOT/harness/vh" "$ROOT/harness/vh-http" "$S/harness/"
+sed -i "s#path = \"/repo#path = \"$S/repo#g" "$S/harness/vh/Cargo.toml" "$S/harness/vh-http/Cargo.toml"
 # warm start: reuse the compiled third-party dependencies
 if [ -d "$ROOT/harness/target" ]; then cp -a "$ROOT/harness/target" "$S/harness/target"; fi
 cd "$ROOT"
